@@ -209,6 +209,31 @@ fn run_case(dbd: &DbDef, r: &mut Rng, model: &mut model::Model, rep: &mut Report
     } else if has_null(b, kb) || has_null(a, ka) {
         rep.count("not_in_null_region_correct");
     }
+    // IN / NOT IN over a FILTERED subquery (the filter may select nothing although the table is not
+    // empty — then NULL NOT IN (…) is TRUE): against the TRUE-set computed by the model on the rows
+    // the filter keeps, and against the derived-table spelling
+    {
+        let fcol = *r.pick(&b.schema.cols_of(Ty::Int));
+        let fval: i64 = match b.rows.get(r.below(b.rows.len().max(1) as u64) as usize).map(|row| row[fcol].clone()) {
+            Some(Lit::I(v)) if r.chance(2, 3) => v,
+            _ => r.range(7, 9), // mostly absent from the data
+        };
+        let fsql = format!("{} = {}", qn(unq, tb, &b.schema.cols[fcol].0), Lit::I(fval).sql());
+        let bf = TableDef { schema: b.schema.clone(), rows: b.rows.iter().filter(|row| row[fcol] == Lit::I(fval)).cloned().collect() };
+        rep.count(if bf.rows.is_empty() { "filtered_subquery_empty" } else { "filtered_subquery_nonempty" });
+        for (op, kw) in [("notin", "NOT IN"), ("semi", "IN")] {
+            let q1 = format!("SELECT {} FROM {} WHERE {} {} (SELECT {} FROM {} WHERE {})", all_a, ta, ca, kw, cb, tb, fsql);
+            let q2 = format!("SELECT {} FROM {} WHERE {} {} (SELECT d.{} FROM (SELECT * FROM {} WHERE {}) AS d)", all_a, ta, ca, kw, b.schema.cols[kb].0, tb, fsql);
+            let (o1, o2) = (db.query(&q1), db.query(&q2));
+            let (req, spec) = model_rows(model, op, ka, kb, a, &bf);
+            rep.traces_validated += 1;
+            rep.count(&format!("family_filtered_{}", op));
+            if bag(&o1).as_ref() != Some(&spec) || bag(&o2).as_ref() != Some(&spec) {
+                rep.fail(FailKind::Oracle, None, &format!("x {} (filtered subquery): the result is not the SQL TRUE-set (direct and / or derived-table spelling)", kw),
+                    &format!("{}{};\n  => {}\n{};\n  => {}\n-- request: {}\n-- spec: {:?}", script, q1, o1.brief(), q2, o2.brief(), req, spec));
+            }
+        }
+    }
     // F4: derived-table wrapping
     family(
         rep,
